@@ -5,3 +5,15 @@ reg("C06", weave=["events/queue"],
     stub=["execute callback (records invocations)"],
     assumptions=["testing/synctest fake clock; yield points at every sync operation, channel operation, atomic and interface call woven into events/queue",
                  "lateness bound assumes time advances only by idle jumps and by the scheduler's injected delays (budget 4 ms per run)"])
+reg("C10", weave=["events/queue", "events/batcher"],
+    quick_runs=320000, thorough_runs=6000000,
+    real=["events/batcher/batcher.go", "events/queue/processor.go", "events/queue/queue.go"],
+    stub=["subscriber readers (prompt / slow / stalled) and cancellers are harness clients"],
+    assumptions=["a live subscriber that does not read may hold up delivery (documented blocking sends): progress is demanded only after every stalled subscriber resumed or was cancelled",
+                 "testing/synctest fake clock; injected scheduler delay budget 6 ms per run"])
+reg("C11", weave=["events/broadcaster"],
+    quick_runs=320000, thorough_runs=6000000,
+    real=["events/broadcaster/broadcaster.go"],
+    stub=["subscriber readers (prompt / slow / stalled) and cancellers are harness clients"],
+    assumptions=["a live subscriber that does not read may hold up Broadcast (documented blocking send): progress is demanded only after every stalled subscriber resumed or was cancelled",
+                 "under Close racing Broadcast, values still buffered at Close may be dropped (statement: 'while the broadcaster is open')"])
